@@ -16,17 +16,19 @@ struct Runaway {
 };
 struct TooBig { };
 
-constexpr std::size_t stack_bytes = std::size_t(512) << 20;   // thread stack
-constexpr std::size_t depth_limit = std::size_t(96) << 20;    // far beyond what an acyclic graph of script depth can need
+constexpr std::size_t stack_bytes = std::size_t(64) << 20;   // thread stack
+constexpr std::size_t depth_limit = std::size_t(6) << 20;    // far beyond what an acyclic graph of script depth needs (the deepest legitimate print is reported as max_print_stack_kib); ASan cannot unwind more than 64 MiB
 constexpr std::size_t byte_budget = std::size_t(2) << 20;
 
 struct GuardBuf : std::streambuf {
    std::string data;
    const char* base = nullptr;
+   std::size_t max_depth = 0;
    void check()
    {
       char probe;
       const std::size_t depth = std::size_t(base > &probe ? base - &probe : &probe - base);
+      if (depth > max_depth) max_depth = depth;
       if (depth > depth_limit) throw Runaway{"stack depth"};
       if (data.size() > byte_budget) throw TooBig{};
    }
@@ -106,6 +108,7 @@ void* run_job(void* p)
    r.stream_state_changed = before != after;
    if (r.stream_state_changed) r.stream_state_detail = before + " -> " + after;
    r.text = buf.data;
+   r.max_stack = buf.max_depth;
    // numbers written through the same printer after the node must be decimal
    if (r.status == PrintResult::Completed || r.status == PrintResult::Refused) {
       const std::size_t mark = buf.data.size();
@@ -141,30 +144,45 @@ void collect_refs(const Val& v, std::vector<const void*>& out)
 
 }   // namespace
 
-bool printable_acyclic(const Entity& root, std::size_t* visited_out)
+bool printable_acyclic(const Entity& root, std::size_t* visited_out, std::string* why)
 {
    // iterative DFS with colours over node-valued fields; non-node objects are leaves here
    enum { White, Grey, Black };
    std::unordered_map<const void*, int> colour;
+   struct Kid {
+      const void* node;
+      const char* via;
+   };
    struct Frame {
       const void* node;
-      std::vector<const void*> kids;
+      std::vector<Kid> kids;
       std::size_t next;
    };
    auto kids_of = [&](const void* p) {
-      std::vector<const void*> ks;
+      std::vector<Kid> ks;
+      const Node* self = static_cast<const Node*>(p);
+      // Self-references the library itself builds are not client-made cycles; the printer has to cope with them:
+      //  - a built-in type denotes itself (expr() is the type), so it is a leaf;
+      //  - a Type_id only exists as the self-name of a composite type and designates that very type;
+      if (self->category == Category_code::Type_id) return ks;
+      if (self->category == Category_code::As_type && denote_builtin_type(*static_cast<const As_type*>(static_cast<const Type*>(static_cast<const Expr*>(self))))) return ks;
       Obs o = observe(Entity{Aux::None, p});
       for (auto& f : o) {
          if (back_links().count(f.name)) continue;
+         //  - an enumerator is typed by the enumeration that lists it;
+         if (self->category == Category_code::Enumerator && f.name == "type") continue;
          if (f.name == "type" && f.val.kind == Val::Ref) {
-            // a node's own type is followed for declarations; the built-in constants are leaves
+            //  - nullptr is typed decltype(nullptr): a Decltype over the very node.
             const Node* t = static_cast<const Node*>(f.val.ref);
-            if (t->category == Category_code::As_type) {
-               auto at = static_cast<const As_type*>(static_cast<const Type*>(static_cast<const Expr*>(t)));
-               if (denote_builtin_type(*at)) continue;
+            if (t->category == Category_code::Decltype) {
+               auto dt = static_cast<const Decltype*>(static_cast<const Type*>(static_cast<const Expr*>(t)));
+               if (static_cast<const Node*>(&dt->expr()) == self) continue;
             }
          }
-         collect_refs(f.val, ks);
+         std::vector<const void*> refs;
+         collect_refs(f.val, refs);
+         const char* via = World::intern_static(f.name);
+         for (auto r : refs) ks.push_back({r, via});
       }
       return ks;
    };
@@ -180,20 +198,25 @@ bool printable_acyclic(const Entity& root, std::size_t* visited_out)
          stack.pop_back();
          continue;
       }
-      const void* k = f.kids[f.next++];
-      // references to non-node objects were recorded with their own addresses; only follow real nodes we can observe
-      auto it = colour.find(k);
+      const Kid k = f.kids[f.next++];
+      auto it = colour.find(k.node);
       if (it == colour.end()) {
-         colour[k] = Grey;
+         colour[k.node] = Grey;
          ++visited;
          if (visited > 20000) {
             if (visited_out) *visited_out = visited;
+            if (why) *why = "too-large";
             return false;   // too large to print within budget anyway
          }
-         stack.push_back({k, kids_of(k), 0});
+         stack.push_back({k.node, kids_of(k.node), 0});
       }
       else if (it->second == Grey) {
          if (visited_out) *visited_out = visited;
+         if (why) {
+            // the closing edge: <category of the source>.<accessor> -> <category of the target>
+            *why = std::string(category_name(static_cast<const Node*>(f.node)->category)) + "." + k.via + "->" +
+                   category_name(static_cast<const Node*>(k.node)->category);
+         }
          return false;
       }
    }
@@ -218,6 +241,30 @@ PrintResult guarded_print(const Lexicon& lex, PrintWhat what, const void* target
    pthread_attr_destroy(&attr);
    return r;
 }
+
+namespace {
+void do_print(World& w, PrintRecord rec, const Entity& root)
+{
+   std::string why;
+   if (!printable_acyclic(root, nullptr, &why)) {
+      rec.result.status = PrintResult::SkippedCyclic;
+      w.findings.count("prints_skipped_cyclic");
+      w.findings.count("cyclic_via_" + why);
+   }
+   else if (w.counters["runaway_prints"] >= 2) {
+      // every runaway print unwinds tens of MiB of stack; two per case are enough to report it
+      rec.result.status = PrintResult::SkippedCyclic;
+      w.findings.count("prints_skipped_after_runaway");
+   }
+   else {
+      rec.result = guarded_print(w.L(), rec.what, rec.target, rec.locations);
+      w.findings.count("prints");
+      if (rec.result.status == PrintResult::Runaway) ++w.counters["runaway_prints"];
+      else if (long(rec.result.max_stack >> 10) > w.counters["max_print_stack_kib"]) w.counters["max_print_stack_kib"] = long(rec.result.max_stack >> 10);
+   }
+   w.prints.push_back(std::move(rec));
+}
+}   // namespace
 
 void print_op(World& w, const Op& op)
 {
@@ -270,16 +317,56 @@ void print_op(World& w, const Op& op)
       break;
    }
    }
-   if (!printable_acyclic(root)) {
-      rec.result.status = PrintResult::SkippedCyclic;
-      w.findings.count("prints_skipped_cyclic");
-   }
-   else {
-      rec.result = guarded_print(w.L(), rec.what, rec.target, rec.locations);
-      w.findings.count("prints");
-   }
-   w.prints.push_back(std::move(rec));
+   do_print(w, std::move(rec), root);
    w.note("print");
+}
+
+// Offer what the script built to the printer in every role: each unit (locations on and off), each declaration,
+// statement and type, each expression as expression and alternately as declaration / statement.  Pools larger
+// than `cap_per_pool` are sampled with an even stride.
+void print_sweep(World& w, std::size_t cap_per_pool)
+{
+   auto stride = [&](std::size_t n) { return n <= cap_per_pool ? std::size_t(1) : (n + cap_per_pool - 1) / cap_per_pool; };
+   bool loc = false;
+   for (auto& u : w.units)
+      for (int l = 0; l < 2; ++l) {
+         PrintRecord rec;
+         rec.what = P_UNIT;
+         rec.target = static_cast<const Translation_unit*>(&u);
+         rec.locations = l != 0;
+         do_print(w, std::move(rec), ent(u.global_namespace()));
+      }
+   for (std::size_t i = 0, st = stride(w.decls.size()); i < w.decls.size(); i += st) {
+      PrintRecord rec;
+      rec.what = P_DECL;
+      rec.target = static_cast<const Expr*>(w.decls[i].decl);
+      rec.cat = w.decls[i].decl->category;
+      rec.locations = (loc = !loc);
+      do_print(w, std::move(rec), ent(*w.decls[i].decl));
+   }
+   for (std::size_t i = 0, st = stride(w.stmts.size()); i < w.stmts.size(); i += st) {
+      PrintRecord rec;
+      rec.what = P_STMT;
+      rec.target = static_cast<const Expr*>(w.stmts[i].stmt);
+      rec.cat = w.stmts[i].stmt->category;
+      rec.locations = (loc = !loc);
+      do_print(w, std::move(rec), ent(*w.stmts[i].stmt));
+   }
+   for (std::size_t i = 0, st = stride(w.types.size()); i < w.types.size(); i += st) {
+      PrintRecord rec;
+      rec.what = P_TYPE;
+      rec.target = static_cast<const Expr*>(w.types[i]);
+      rec.cat = w.types[i]->category;
+      do_print(w, std::move(rec), ent(*w.types[i]));
+   }
+   for (std::size_t i = 0, st = stride(w.exprs.size()), k = 0; i < w.exprs.size(); i += st, ++k) {
+      PrintRecord rec;
+      rec.what = k % 4 == 1 ? P_STMT : (k % 4 == 3 ? P_DECL : P_EXPR);
+      rec.target = w.exprs[i];
+      rec.cat = w.exprs[i]->category;
+      rec.locations = (loc = !loc);
+      do_print(w, std::move(rec), ent(*w.exprs[i]));
+   }
 }
 
 }   // namespace eng
